@@ -261,7 +261,14 @@ def run_rt(spec, acc):
                     r.start(delta=rng.choice([0, 0, 0.001, 0.004, 0.02]))
                 else:
                     r.start()
-            done_ev.wait(10.0)
+            if not done_ev.wait(10.0):
+                # the clocks are behind (overloaded host): let them catch up
+                # instead of piling the next batch on top; a shard whose clocks
+                # stay behind ends here with what it has
+                acc.count('rt_batches_not_finished_within_10s')
+                if not done_ev.wait(60.0):
+                    acc.count('rt_shards_ended_early_clocks_behind')
+                    t_end = 0
             pstop[0] = True
             pth.join(5)
             time.sleep(0.08)        # the last probes' yields (<= 4 x 10 ms)
@@ -490,8 +497,15 @@ def run_nrt(spec, acc):
             acc.count(f'nrt_res_{what}_{ck}', n)
         for f in feats:
             acc.count('feature_' + f)
+        acc.count('nrt_yields_of_other_numeric_classes', r.n_wrapped)
         if not r.done:
+            # every routine of a program ends (waits are always released, a
+            # yield of inf ends the routine's part): a program that is still
+            # live when the scheduler has run dry lost a resumption
             acc.count('nrt_programs_unfinished')
+            acc.violation('C05/nrt-program-still-live-when-the-schedule-is-empty',
+                          {'case': i, 'program': prog, 'live': r.live,
+                           'log_tail': r.log[-6:]})
         report_fails(r, acc, 'nrt', prog)
         # logical time never decreases from one executed task to the next
         # (beats<->seconds round trips of tempo clocks may cost an ulp: 1e-9 rel.)
